@@ -1,18 +1,19 @@
 /* VERIF-GROUP
 {
- "property": ["C08", "C09"],
+ "property": ["C08", "C09", "C14"],
  "entry": "h_readdata",
  "enforce": ["callback_readdata"],
- "replace": ["addbody", "callback_chunkedheader", "docallback", "fail", "die"],
+ "replace": ["callback_chunkedheader", "docallback", "fail", "die"],
  "annotate": ["http/http.c"],
- "defines": ["VERIF_HALLOC", "HTTP_N=24", "HTTP_BODYMAX=24", "VERIF_STRMAX=8"],
+ "defines": ["VERIF_HALLOC", "HTTP_N=24", "HTTP_BODYMAX=24", "VERIF_STRMAX=8", "HTTP_MAYFAIL"],
  "thorough_defines": ["HTTP_N=64", "HTTP_BODYMAX=64"],
- "models": ["models/libc_string.c", "models/http_env.c"],
- "cbmc": ["--object-bits", "10"],
+ "models": ["models/libc_string.c", "models/http_env.c", "models/libc_mem.c"],
+ "cbmc": ["--malloc-may-fail", "--malloc-fail-null"],
  "loop_contracts": false,
- "timeout": 900,
+ "timeout": 600,
  "assumptions": ["reader window object <= HTTP_N bytes, body object <= HTTP_BODYMAX bytes (object sizes only; limit and readlen are arbitrary)",
-   "addbody, callback_chunkedheader, docallback, fail, die: replaced by their contracts (enforced in their own groups)"]
+   "callback_chunkedheader, docallback, fail, die: replaced by their contracts (enforced in their own groups); addbody is INLINED (real code: a replaced callee with a frees clause blocks the caller's later frees of the kept buffer in cbmc 6.11), so its in-code assertion is proved directly in this context",
+   "realloc may fail (HTTP_MAYFAIL: die() is then allowed without an environment failure)"]
 }
 */
 /*
